@@ -378,6 +378,12 @@ def oracle(q, I, ctx):
     sg = [sgn(p[0]) for p in pts]
     if 0 in sg or len(set(sg)) > 1:     # a zero or a sign change inside [r-acc, r+acc] (clipped to the bracket)
         return out
+    # the witness of findRoot_accuracy: an evaluated abscissa within acc of r where f has the other sign
+    for x in I["xs"]:
+        if x != r and abs(Fraction(x) - Fraction(r)) <= delta:
+            fx = feval(d, Fraction(x))
+            if fx is not None and sgn(fx[0]) * sg[1] <= 0:
+                return out
     noise = min((abs(p[0]) / p[1]) if p[1] else 0 for p in pts)
     if noise <= KNOISE * (float(U) if not isinstance(noise, Fraction) else U):
         bump(ctx, "noise-excused (|f| below its rounding error near the returned point)")
@@ -452,9 +458,11 @@ def compare(rq, impl, model, ctx):
             div = (i, "number of evaluations impl %d model %d (common prefix agrees)" % (len(xs), n))
         if div is None and (("maxiter" == mkind) != bool(I["maxit"])):
             div = (n - 1, "exit path impl maxit=%d model %s" % (I["maxit"], mkind))
+        bump(ctx, "trace: abscissae agreeing with the model within tolerance", div[0] if div else n)
         if div:
             if cummargin(div[0]) < max(MARGIN, 8 * sens(it(div[0]))):
                 ctx["excused"] += 1; excused = True
+                bump(ctx, "trace: divergence excused in iteration %s" % ("0-1" if it(div[0]) < 2 else "2-5" if it(div[0]) < 6 else ">=6"))
             else:
                 out.append(fail("corr", "trace of abscissae differs from the model (iterate / re-bracketing / termination)",
                                 div[1] + " margin=%.3g" % float(cummargin(div[0]))))
